@@ -4,6 +4,7 @@ import (
 	"fmt"
 	"go/token"
 	"go/types"
+	"os"
 	"sort"
 	"strings"
 
@@ -428,6 +429,9 @@ func runC12(r *Report) {
 					r.Fn(bf)
 				}
 				kind, num, den := divFormOf(ms.Len)
+				if os.Getenv("STORDEBUG") != "" {
+					fmt.Fprintf(os.Stderr, "c12 blocks: %s make len=%s kind=%v num=%v\n", fname(bf), exprStr(ms.Len), kind, num)
+				}
 				if kind == divOther || num == nil {
 					// a helper computing the count (metadataChunks(size)): look at what it returns
 					if c, isC := stripIntConv(ms.Len).(*ssa.Call); isC {
